@@ -60,7 +60,13 @@ func GenerateConcurrent(bitsize int, stop chan struct{}) (<-chan *big.Int, <-cha
 					return
 				default:
 					simhook.Yield("safeprime.worker:before-send")
-					ints <- x
+					// The consumer may stop receiving at any time: do not block on the send
+					// forever when the results buffer is full and we have been told to stop.
+					select {
+					case ints <- x:
+					case <-stopped:
+						return
+					}
 					continue
 				}
 			}
